@@ -58,6 +58,60 @@ class Boom(IOError):
     pass
 
 
+def chdir_sequences(ds, scratch):
+    """A relative file name means the file of that name in the working directory *at the time of the call*: the same
+    relative name written from directory A, then from B, then from A again (other documents, other formats) — after each
+    call exactly that directory's file holds exactly that serialisation and no other file of either directory changed."""
+    fails = []
+    n = 0
+    cwd = os.getcwd()
+    old_tmp = tempfile.tempdir
+    dirs = [os.path.join(scratch, "cwd_" + x) for x in ("A", "B", "C")]
+    tmpd = os.path.join(scratch, "tmp_cd")
+    try:
+        for name in ("out.json", "sub/dir/r e#l.xml", "results%20v2.json"):
+            for p in dirs:
+                shutil.rmtree(p, ignore_errors=True)
+                os.makedirs(os.path.join(p, "sub/dir"))
+            shutil.rmtree(tmpd, ignore_errors=True)
+            os.makedirs(tmpd)
+            tempfile.tempdir = tmpd
+            steps = [(0, ds[0], "json"), (1, ds[-1], "xml"), (0, ds[-1], "provn"), (2, ds[0], "rdf"), (1, ds[0], "json")]
+            for k, (di, doc, fmt) in enumerate(steps):
+                n += 1
+                ref = io.BytesIO()
+                doc.serialize(ref, format=fmt)
+                expected = ref.getvalue()
+                before = [snapshot(x) for x in dirs]
+                os.chdir(dirs[di])
+                try:
+                    with mock.patch("builtins.print"):
+                        doc.serialize(name, format=fmt)
+                    raised = None
+                except Exception as e:
+                    raised = repr(e)[:200]
+                finally:
+                    os.chdir(cwd)
+                after = [snapshot(x) for x in dirs]
+                case = {"name": name, "call": k, "directory": "ABC"[di], "earlier_calls_from": ["ABC"[s[0]] for s in steps[:k]]}
+                if raised:
+                    fails.append(dict(case, what="serialize to a relative file name raised", exc=raised))
+                    continue
+                if after[di].get(name) != expected:
+                    fails.append(dict(case, what="the file of that name in the current working directory does not hold the serialisation",
+                                      changed=[["ABC"[j], f] for j in range(3) for f in sorted(set(before[j]) | set(after[j])) if before[j].get(f) != after[j].get(f)]))
+                for j in range(3):
+                    ch = [f for f in sorted(set(before[j]) | set(after[j])) if before[j].get(f) != after[j].get(f) and not (j == di and f == name)]
+                    if ch:
+                        fails.append(dict(case, what="serialize changed a file other than the named one", where="ABC"[j], files=ch))
+                if os.listdir(tmpd):
+                    fails.append(dict(case, what="a temp file was left behind after a successful write"))
+    finally:
+        os.chdir(cwd)
+        tempfile.tempdir = old_tmp
+    return n, fails
+
+
 def snapshot(root):
     out = {}
     for dp, dn, fn in os.walk(root):
@@ -286,7 +340,14 @@ def run(tier, seed, log, model_runs=True, enlarged=False):
             for f in fails:
                 violations.append({"kind": "failing-input", "failure": f,
                                    "case": {"format": fmt, "name": name, "preexisting": pre, "fault": fault}})
-        log("ran %d file-write cases in %.1fs" % (len(recs), time.time() - t0))
+        try:
+            n_cd, cd_fails = chdir_sequences(ds, scratch)
+        except Exception:
+            n_cd, cd_fails = 0, []
+            violations.append({"kind": "harness-error", "what": "harness error", "detail": traceback.format_exc()[-1500:]})
+        for f in cd_fails[:3]:
+            violations.append({"kind": "failing-input", "failure": f, "case": {"name": f.get("name"), "sequence": "chdir"}})
+        log("ran %d file-write cases and %d calls in working-directory sequences in %.1fs" % (len(recs), n_cd, time.time() - t0))
         # correspondence: the model's destination path vs the file actually written
         if model_runs:
             names_used = sorted({r["name"] for r in recs})
@@ -317,7 +378,7 @@ def run(tier, seed, log, model_runs=True, enlarged=False):
     coverage = {
         "evaluations": len(recs),
         "distinct_nontrivial": len({(r.get("name"), r.get("fmt"), r.get("preexisting"), str(r.get("fault"))) for r in recs if not r.get("refused")}),
-        "rule": "file-write cases = format x file name (relative, nested, absolute, spaces, non-ASCII, '#', '?', ';', ':', file: URL) "
+        "rule": "working-directory sequences (one relative name written from directory A, B, A, C, B: 3 names x 5 calls); file-write cases = format x file name (relative, nested, absolute, spaces, non-ASCII, '#', '?', ';', ':', file: URL) "
                 "x pre-existing destination or not x fault (none, the k-th write call of the stream, the flush at close, the final move); each runs "
                 "in a scratch directory with its own temp directory; distinct = distinct (name, format, preexisting, fault)",
         "samples": recs[:2] + recs[-2:],
